@@ -60,7 +60,7 @@ class Prelude(Raw):
 
 class _Extract:
     def __init__(self, file, subs=(), spec=None, loops=None, before=(), after=(), label=None,
-                 note=None, replace_loops=None, index_loops=None, optional=False):
+                 note=None, replace_loops=None, index_loops=None, optional=False, prologue=None):
         self.file = file
         self.subs = list(subs)
         self.spec = spec
@@ -71,6 +71,7 @@ class _Extract:
         self.note = note
         self.applied = []
         self.item = None
+        self.prologue = prologue   # proof text placed at the very start of the body (no anchor needed)
         self.optional = optional   # the function need not exist (e.g. an override of a std default)
         self.replace_loops = dict(replace_loops or {})
         # R8: desugar `for X in &mut V {BODY}` (loop ordinal k) into the index loop
@@ -182,6 +183,10 @@ class _Extract:
                 raise LostAnchor('%s: substitution `%s` matched %d times, declared %d'
                                  % (item.name, shown, n, cnt))
             self.applied.append(('%s: `%s` -> `%s`' % (rule, shown, rep), n))
+        if self.prologue is not None:
+            if not re.search(r'/\*@SPEC@\*/\{', text):
+                raise LostAnchor('%s: no body start to attach the prologue to' % item.name)
+            text = re.sub(r'(/\*@SPEC@\*/\{)', lambda m: m.group(1) + '\n        ' + self.prologue.strip('\n') + '\n', text, count=1)
         if self.spec is not None:
             text = text.replace('/*@SPEC@*/', '\n' + self.spec.strip('\n') + '\n')
         for k, inv in self.loops.items():
